@@ -671,9 +671,17 @@ func calculateTextEditRange(content string, pos protocol.Position, ctxType Compl
 			for startByte < byteCol && (line[startByte] == ' ' || line[startByte] == '*' || line[startByte] == '!') {
 				startByte++
 			}
+		} else {
+			// the cursor is still inside the date: nothing typed so far belongs to the payee
+			startByte = byteCol
 		}
 	default:
 		return nil
+	}
+
+	// The edit replaces what was typed before the cursor; it never starts behind the cursor.
+	if startByte > byteCol {
+		startByte = byteCol
 	}
 
 	startChar := lsputil.ByteOffsetToUTF16(line, startByte)
